@@ -16,7 +16,7 @@ def thorough_matrix(prop, repo_root, rep):
     from .selftest import run_for_property
     res = run_for_property(prop, repo_root)
     fires = [r for r in res if r['kind'] == 'fires']
-    silent = [r for r in res if r['kind'] == 'silent']
+    silent = [r for r in res if r['kind'] in ('silent', 'tolerate')]
     bad = [r for r in res if r['status'] in ('MISS', 'FALSE-ALARM', 'STALE')]
     for r in bad:
         print('WARN self-validation: variant %s (%s) -> %s' % (r['id'], r['kind'], r['status']))
